@@ -68,6 +68,11 @@ def optField (s : Str) (a b : Nat) : Option (Nat × Str) :=
 def isDirLetter (c : Nat) : Bool :=
   c == 78 || c == 83 || c == 69 || c == 87 || c == 110 || c == 115 || c == 101 || c == 119
 
+/-- `(?P<dir>[NSEW])?` at the head of what is left -/
+def dirOfRest : Str → Option Nat
+  | c :: _ => if isDirLetter c then some c else none
+  | [] => none
+
 /-- hand-written recogniser for
     `re.match(r"(?P<deg>\d{1,3})[°]((?P<min>\d{1,2})[′'])?((?P<sec>\d{1,2})[″\"])?(?P<dir>[NSEW])?", s, IGNORECASE)`
     on the modelled alphabet -/
@@ -83,10 +88,7 @@ def dmsRecognise (s : Str) : Option DmsMatch :=
       let (sc, r3) := match optField r2 cDPrime cQuote with
         | some (v, r) => (some v, r)
         | none => (none, r2)
-      let dir := match r3 with
-        | c :: _ => if isDirLetter c then some c else none
-        | [] => none
-      some ⟨deg, mn, sc, dir⟩
+      some ⟨deg, mn, sc, dirOfRest r3⟩
   | (_, _, []) => none
 
 /-- a parsed decimal numeral: sign, mantissa digits as a number, decimal exponent -/
